@@ -78,8 +78,10 @@ func authProfile() chain.Profile {
 	p.Name = "auth"
 	p.HotKeys = map[string][]string{"a01": {"a11"}, "a02": {"a12"}, "a05": {"a11", "a01", "a07", "a12"}}
 	p.Weights = map[string]int{"Blocks": 14, "StoreNew": 10, "StoreUpdate": 16, "Complete": 24, "Cancel": 5, "CancelAny": 6, "Terminate": 6,
-		"Renew": 6, "Migrate": 3, "Claim": 4, "AddVstorage": 2, "RemoveVstorage": 2, "Permission": 8, "Reset": 1, "Ready": 2}
+		"Renew": 6, "Migrate": 3, "Claim": 4, "AddVstorage": 2, "RemoveVstorage": 2, "Permission": 8, "Reset": 1, "Ready": 2,
+		"StoreForeign": 8, "StoreOddBase": 6}
 	p.Adversarial = 35
+	p.MaxData = 3
 	p.Timeouts = []int64{20, 600, 3600}
 	return p
 }
